@@ -302,7 +302,116 @@ def e5(prog, ctx):
     ctx.floor("E5", "abs()-wrapped symmetric tolerance tests", n_abs, 3)
 
 
+# ---------------------------------------------------------------------------
+# E6: tolerance roles
+# ---------------------------------------------------------------------------
+
+TOL_MODULES = ("src/long_read_assigner.py", "src/junction_comparator.py", "src/polya_verification.py", "src/alignment_info.py",
+               "src/long_read_profiles.py")
+NOT_TOLERANCES = re.compile(r"^(correct_|count_exons$|resolve_ambiguous$|needs_|cage|no_|report_|data_type|debug)")
+
+
+def _use_signature(node):
+    """How a params.<tolerance> value is consumed: 'callee#argpos' / 'callee#kw', 'cmp', 'flag', or the statement kind."""
+    ch, par = node, getattr(node, "_parent", None)
+    while isinstance(par, (ast.BinOp, ast.UnaryOp)) or (isinstance(par, ast.Call) and dotted(par.func) in ("abs", "int", "float", "round", "min", "max")):
+        ch, par = par, getattr(par, "_parent", None)
+    if isinstance(par, ast.Call):
+        callee = (dotted(par.func) or "?").split(".")[-1]
+        for i, a in enumerate(par.args):
+            if a is ch:
+                return "%s#%d" % (callee, i)
+        for k in par.keywords:
+            if k.value is ch:
+                return "%s#%s" % (callee, k.arg)
+        return "%s#?" % callee
+    if isinstance(par, ast.keyword):
+        c = getattr(par, "_parent", None)
+        return "%s#%s" % ((dotted(c.func) or "?").split(".")[-1] if isinstance(c, ast.Call) else "?", par.arg)
+    if isinstance(par, ast.Compare):
+        return "cmp"
+    if isinstance(par, (ast.If, ast.BoolOp, ast.IfExp, ast.While)) or (isinstance(par, ast.UnaryOp) and isinstance(par.op, ast.Not)):
+        return "flag"
+    if isinstance(par, ast.Assign):
+        return "assign"
+    return type(par).__name__.lower()
+
+
+def tolerance_uses(prog):
+    uses = {}
+    for m, q, f in prog.all_functions():
+        if m.rel not in TOL_MODULES:
+            continue
+        aliases = {}
+        for st in walk_no_nested(f):
+            if isinstance(st, ast.Assign) and len(st.targets) == 1 and isinstance(st.targets[0], ast.Name) and isinstance(st.value, ast.Attribute) \
+                    and src(st.value.value) in ("self.params", "params"):
+                aliases[st.targets[0].id] = st.value.attr
+        for n in walk_no_nested(f):
+            attr = None
+            if isinstance(n, ast.Attribute) and src(n.value) in ("self.params", "params") and isinstance(n.ctx, ast.Load):
+                attr = n.attr
+                if isinstance(getattr(n, "_parent", None), ast.Assign) and n._parent.value is n and isinstance(n._parent.targets[0], ast.Name):
+                    continue        # plain alias: its uses are followed instead
+            elif isinstance(n, ast.Name) and isinstance(n.ctx, ast.Load) and n.id in aliases:
+                attr = aliases[n.id]
+            if attr is None or NOT_TOLERANCES.match(attr):
+                continue
+            uses.setdefault(attr, {}).setdefault(_use_signature(n), []).append((m, q, n))
+    return uses
+
+
+# confirmed by reading on the pinned tree: which comparator / role each tolerance feeds
+TOL_ROLES = {
+    "apa_delta": {"cmp"},                                   # distance of a polyA/T site to the isoform end
+    "delta": {"NonOverlappingFeaturesProfileConstructor#delta", "OverlappingFeaturesProfileConstructor#delta", "cmp", "contains_approx#2",
+              "equal_ranges#2", "partial#delta"},           # splice-site / exon-border equality slack
+    "max_fake_terminal_exon_len": {"cmp"},
+    "max_intron_abs_diff": {"cmp"},
+    "max_intron_rel_diff": {"cmp"},
+    "max_intron_shift": {"cmp"},
+    "max_missed_exon_len": {"cmp"},
+    "max_suspicious_intron_abs_len": {"cmp"},
+    "max_suspicious_intron_rel_len": {"cmp"},
+    "micro_intron_length": {"cmp"},
+    "min_abs_exon_overlap": {"assign", "contains_approx#2"},   # containment slack of the isoform pre-filter; overlap cut-off
+    "min_rel_exon_overlap": {"assign"},
+    "minimal_exon_overlap": {"contains_well_inside#2", "partial#delta"},
+    "minimal_intron_absence_overlap": {"partial#delta"},
+    "minor_exon_extension": {"cmp", "overlaps_at_least#2", "tuple"},
+}
+
+
+def e6(prog, ctx):
+    uses = tolerance_uses(prog)
+    n = 0
+    for attr in sorted(uses):
+        for sig in sorted(uses[attr]):
+            m, q, node = uses[attr][sig][0]
+            n += 1
+            if attr not in TOL_ROLES:
+                ctx.fail("E6", node, q, "params.%s as %s" % (attr, sig), "params.%s is consumed by the assignment code but has no confirmed role: "
+                         "a new tolerance must be triaged (which documented tolerance is it?)" % attr)
+            elif sig not in TOL_ROLES[attr]:
+                ctx.fail("E6", node, q, "params.%s as %s" % (attr, sig),
+                         "tolerance params.%s is used here as `%s`; its confirmed roles are %s. A tolerance moved to another comparison changes "
+                         "which reads count as 'within the documented tolerances' (e.g. a 300-bp extension bound used where a 10-bp "
+                         "containment slack belongs lets reads with extra terminal exons pass as consistent)" % (attr, sig, sorted(TOL_ROLES[attr])))
+            else:
+                ctx.ok("E6", "%s:%d" % (m.rel, node.lineno), "params.%s used as %s (%d sites)" % (attr, sig, len(uses[attr][sig])))
+    ctx.floor("E6", "tolerance use signatures", n, 20)
+
+
 def run(prog, ctx):
+    ctx.rule("E6", "who-may-use table for tolerances: every consumption of a params.<tolerance> attribute in the assigner, comparator, "
+                   "profile and polyA modules (local aliases followed) has a use signature - callee#argument, comparison, assignment - "
+                   "that is in the table confirmed by reading; a tolerance appearing in a new role needs triage")
+    e6(prog, ctx)
+    ctx.rule("E7", "the polyA (+ strand) and polyT (- strand) twins of src/polya_verification.py are exact mirror images under the typed "
+                   "coordinate reflection of C11/X1: a read following an isoform is verified identically on both strands")
+    from . import x1_pairs
+    n7 = x1_pairs.run_function_pairs(prog, ctx, "E7", {"src/polya_verification.py"})
+    ctx.floor("E7", "polyA / polyT function pairs", n7, 5)
     ctx.rule("E5", "in the comparators, every `f(a) - f(b) <(=) tolerance(params)` with like terms on both sides is wrapped in abs() "
                    "(one-sided comparison rule)")
     ctx.rule("E1", "every MatchEventSubtype member in value position in the comparators (emitted set) lies in exactly one of "
